@@ -1,0 +1,94 @@
+//go:build verif
+
+package query
+
+// Contracts for the query language (property C12).
+// Comment-only file: it is compiled only with -tags verif and contains no code.
+
+// The sort keys of doc/queries.md: value -> (order, direction); anything else is an error and changes nothing.
+//@ spec func sortKnown(v string) bool = v == "id-desc" || v == "id" || v == "id-asc" || v == "creation" || v == "creation-desc" || v == "creation-asc" || v == "edit" || v == "edit-desc" || v == "edit-asc"
+//@ spec func sortBy(v string) int = (v == "id-desc" || v == "id" || v == "id-asc") ? 1 : ((v == "creation" || v == "creation-desc" || v == "creation-asc") ? 2 : 3)
+//@ spec func sortDir(v string) int = (v == "id" || v == "id-asc" || v == "creation-asc" || v == "edit-asc") ? 1 : 2
+
+//@ func parseSorting
+//@   props C12
+//@   nopanic
+//@   requires q != nil
+//@   modifies q.OrderBy, q.OrderDirection
+//@   ensures [known-keys]  (result == nil) == sortKnown(value)
+//@   ensures [order]       result == nil ==> int(q.OrderBy) == sortBy(value) && int(q.OrderDirection) == sortDir(value)
+//@   ensures [error-keeps] result != nil ==> q.OrderBy == old(q.OrderBy) && q.OrderDirection == old(q.OrderDirection)
+
+// The lexer must not crash on any input (its splitting rules are exercised by the existing tests; the
+// parser below is verified against whatever token list it produces).
+//@ func tokenize
+//@   props C12
+//@   nopanic
+//@ func removeQuote
+//@   props C12
+//@   nopanic
+//@ func splitFunc
+//@   props C12
+//@   nopanic
+
+// Token constructors only build a value.
+//@ func newTokenKV
+//@ func newTokenKVV
+//@ func newTokenSearch
+//@ func isQuote
+//@   props C12
+//@   modifies nothing
+
+// Parse (C12). Relative to the token list: every search term, author, actor, participant, label, title and
+// metadata pair of the query comes from a token of that kind and every such token is represented (any-of /
+// all-of is decided by the matcher, the parser only sorts tokens into the right list); unknown qualifiers are
+// rejected; at most one sort token is accepted and it is the one applied, the default being creation-desc.
+//@ func Parse
+//@   props C12
+//@   nopanic
+//@   ensures [result-or-error] (result == nil) == (err != nil)
+//@   check [search-from-tokens] err == nil ==> (forall j int :: { q.Search[j] } 0 <= j && j < len(q.Search) ==> (exists k int :: { tokens[k] } 0 <= k && k < len(tokens) && tokens[k].kind == tokenKindSearch && tokens[k].term == q.Search[j]))
+//@   check [tokens-in-search]   err == nil ==> (forall k int :: { tokens[k] } 0 <= k && k < len(tokens) && tokens[k].kind == tokenKindSearch ==> (exists j int :: { q.Search[j] } 0 <= j && j < len(q.Search) && tokens[k].term == q.Search[j]))
+//@   check [author-from-tokens] err == nil ==> (forall j int :: { q.Author[j] } 0 <= j && j < len(q.Author) ==> (exists k int :: { tokens[k] } 0 <= k && k < len(tokens) && tokens[k].kind == tokenKindKV && tokens[k].qualifier == "author" && tokens[k].value == q.Author[j]))
+//@   check [tokens-in-author]   err == nil ==> (forall k int :: { tokens[k] } 0 <= k && k < len(tokens) && tokens[k].kind == tokenKindKV && tokens[k].qualifier == "author" ==> (exists j int :: { q.Author[j] } 0 <= j && j < len(q.Author) && tokens[k].value == q.Author[j]))
+//@   check [actor-from-tokens] err == nil ==> (forall j int :: { q.Actor[j] } 0 <= j && j < len(q.Actor) ==> (exists k int :: { tokens[k] } 0 <= k && k < len(tokens) && tokens[k].kind == tokenKindKV && tokens[k].qualifier == "actor" && tokens[k].value == q.Actor[j]))
+//@   check [tokens-in-actor]   err == nil ==> (forall k int :: { tokens[k] } 0 <= k && k < len(tokens) && tokens[k].kind == tokenKindKV && tokens[k].qualifier == "actor" ==> (exists j int :: { q.Actor[j] } 0 <= j && j < len(q.Actor) && tokens[k].value == q.Actor[j]))
+//@   check [participant-from-tokens] err == nil ==> (forall j int :: { q.Participant[j] } 0 <= j && j < len(q.Participant) ==> (exists k int :: { tokens[k] } 0 <= k && k < len(tokens) && tokens[k].kind == tokenKindKV && tokens[k].qualifier == "participant" && tokens[k].value == q.Participant[j]))
+//@   check [tokens-in-participant]   err == nil ==> (forall k int :: { tokens[k] } 0 <= k && k < len(tokens) && tokens[k].kind == tokenKindKV && tokens[k].qualifier == "participant" ==> (exists j int :: { q.Participant[j] } 0 <= j && j < len(q.Participant) && tokens[k].value == q.Participant[j]))
+//@   check [label-from-tokens] err == nil ==> (forall j int :: { q.Label[j] } 0 <= j && j < len(q.Label) ==> (exists k int :: { tokens[k] } 0 <= k && k < len(tokens) && tokens[k].kind == tokenKindKV && tokens[k].qualifier == "label" && tokens[k].value == q.Label[j]))
+//@   check [tokens-in-label]   err == nil ==> (forall k int :: { tokens[k] } 0 <= k && k < len(tokens) && tokens[k].kind == tokenKindKV && tokens[k].qualifier == "label" ==> (exists j int :: { q.Label[j] } 0 <= j && j < len(q.Label) && tokens[k].value == q.Label[j]))
+//@   check [title-from-tokens] err == nil ==> (forall j int :: { q.Title[j] } 0 <= j && j < len(q.Title) ==> (exists k int :: { tokens[k] } 0 <= k && k < len(tokens) && tokens[k].kind == tokenKindKV && tokens[k].qualifier == "title" && tokens[k].value == q.Title[j]))
+//@   check [tokens-in-title]   err == nil ==> (forall k int :: { tokens[k] } 0 <= k && k < len(tokens) && tokens[k].kind == tokenKindKV && tokens[k].qualifier == "title" ==> (exists j int :: { q.Title[j] } 0 <= j && j < len(q.Title) && tokens[k].value == q.Title[j]))
+//@   check [status-from-tokens] err == nil ==> (forall j int :: { q.Status[j] } 0 <= j && j < len(q.Status) ==> (exists k int :: { tokens[k] } 0 <= k && k < len(tokens) && tokens[k].kind == tokenKindKV && (tokens[k].qualifier == "status" || tokens[k].qualifier == "state") && common.StatusFromString(tokens[k].value) == q.Status[j]))
+//@   check [tokens-in-status]   err == nil ==> (forall k int :: { tokens[k] } 0 <= k && k < len(tokens) && tokens[k].kind == tokenKindKV && (tokens[k].qualifier == "status" || tokens[k].qualifier == "state") ==> (exists j int :: { q.Status[j] } 0 <= j && j < len(q.Status) && common.StatusFromString(tokens[k].value) == q.Status[j]))
+//@   check [metadata-from-tokens] err == nil ==> (forall j int :: { q.Metadata[j] } 0 <= j && j < len(q.Metadata) ==> (exists k int :: { tokens[k] } 0 <= k && k < len(tokens) && tokens[k].kind == tokenKindKVV && tokens[k].qualifier == "metadata" && q.Metadata[j].Key == tokens[k].subQualifier && q.Metadata[j].Value == tokens[k].value))
+//@   check [tokens-in-metadata]   err == nil ==> (forall k int :: { tokens[k] } 0 <= k && k < len(tokens) && tokens[k].kind == tokenKindKVV && tokens[k].qualifier == "metadata" ==> (exists j int :: { q.Metadata[j] } 0 <= j && j < len(q.Metadata) && q.Metadata[j].Key == tokens[k].subQualifier && q.Metadata[j].Value == tokens[k].value))
+//@   check [qualifiers-known] err == nil ==> (forall k int :: { tokens[k] } 0 <= k && k < len(tokens) ==> (tokens[k].kind == tokenKindKV ==> (tokens[k].qualifier == "status" || tokens[k].qualifier == "state" || tokens[k].qualifier == "author" || tokens[k].qualifier == "actor" || tokens[k].qualifier == "participant" || tokens[k].qualifier == "label" || tokens[k].qualifier == "title" || tokens[k].qualifier == "no" || tokens[k].qualifier == "sort")) && (tokens[k].kind == tokenKindKVV ==> tokens[k].qualifier == "metadata") && (tokens[k].kind == tokenKindKV && tokens[k].qualifier == "no" ==> tokens[k].value == "label") && (tokens[k].kind == tokenKindKV && tokens[k].qualifier == "sort" ==> sortKnown(tokens[k].value)))
+//@   check [no-label] err == nil ==> (q.NoLabel == (exists k int :: { tokens[k] } 0 <= k && k < len(tokens) && tokens[k].kind == tokenKindKV && tokens[k].qualifier == "no"))
+//@   check [sort-applied] err == nil ==> (forall k int :: { tokens[k] } 0 <= k && k < len(tokens) && tokens[k].kind == tokenKindKV && tokens[k].qualifier == "sort" ==> int(q.OrderBy) == sortBy(tokens[k].value) && int(q.OrderDirection) == sortDir(tokens[k].value))
+//@   check [default-sort] err == nil ==> ((forall k int :: { tokens[k] } 0 <= k && k < len(tokens) ==> !(tokens[k].kind == tokenKindKV && tokens[k].qualifier == "sort")) ==> q.OrderBy == OrderByCreation && q.OrderDirection == OrderDescending)
+//@   loop 1
+//@     invariant [q] q != nil && fresh(q)
+//@     invariant [lists-fresh]    (q.Search == nil || fresh(q.Search)) && (q.Author == nil || fresh(q.Author)) && (q.Actor == nil || fresh(q.Actor)) && (q.Participant == nil || fresh(q.Participant)) && (q.Label == nil || fresh(q.Label)) && (q.Title == nil || fresh(q.Title)) && (q.Status == nil || fresh(q.Status)) && (q.Metadata == nil || fresh(q.Metadata))
+//@     invariant [lists-separate] (sarr(q.Search) != sarr(q.Author) || sarr(q.Search) == 0) && (sarr(q.Search) != sarr(q.Actor) || sarr(q.Search) == 0) && (sarr(q.Search) != sarr(q.Participant) || sarr(q.Search) == 0) && (sarr(q.Search) != sarr(q.Label) || sarr(q.Search) == 0) && (sarr(q.Search) != sarr(q.Title) || sarr(q.Search) == 0) && (sarr(q.Author) != sarr(q.Actor) || sarr(q.Author) == 0) && (sarr(q.Author) != sarr(q.Participant) || sarr(q.Author) == 0) && (sarr(q.Author) != sarr(q.Label) || sarr(q.Author) == 0) && (sarr(q.Author) != sarr(q.Title) || sarr(q.Author) == 0) && (sarr(q.Actor) != sarr(q.Participant) || sarr(q.Actor) == 0) && (sarr(q.Actor) != sarr(q.Label) || sarr(q.Actor) == 0) && (sarr(q.Actor) != sarr(q.Title) || sarr(q.Actor) == 0) && (sarr(q.Participant) != sarr(q.Label) || sarr(q.Participant) == 0) && (sarr(q.Participant) != sarr(q.Title) || sarr(q.Participant) == 0) && (sarr(q.Label) != sarr(q.Title) || sarr(q.Label) == 0)
+//@     invariant [search-from-tokens] (forall j int :: { q.Search[j] } 0 <= j && j < len(q.Search) ==> (exists k int :: { tokens[k] } 0 <= k && k <= rangeindex && tokens[k].kind == tokenKindSearch && tokens[k].term == q.Search[j]))
+//@     invariant [tokens-in-search]   (forall k int :: { tokens[k] } 0 <= k && k <= rangeindex && tokens[k].kind == tokenKindSearch ==> (exists j int :: { q.Search[j] } 0 <= j && j < len(q.Search) && tokens[k].term == q.Search[j]))
+//@     invariant [author-from-tokens] (forall j int :: { q.Author[j] } 0 <= j && j < len(q.Author) ==> (exists k int :: { tokens[k] } 0 <= k && k <= rangeindex && tokens[k].kind == tokenKindKV && tokens[k].qualifier == "author" && tokens[k].value == q.Author[j]))
+//@     invariant [tokens-in-author]   (forall k int :: { tokens[k] } 0 <= k && k <= rangeindex && tokens[k].kind == tokenKindKV && tokens[k].qualifier == "author" ==> (exists j int :: { q.Author[j] } 0 <= j && j < len(q.Author) && tokens[k].value == q.Author[j]))
+//@     invariant [actor-from-tokens] (forall j int :: { q.Actor[j] } 0 <= j && j < len(q.Actor) ==> (exists k int :: { tokens[k] } 0 <= k && k <= rangeindex && tokens[k].kind == tokenKindKV && tokens[k].qualifier == "actor" && tokens[k].value == q.Actor[j]))
+//@     invariant [tokens-in-actor]   (forall k int :: { tokens[k] } 0 <= k && k <= rangeindex && tokens[k].kind == tokenKindKV && tokens[k].qualifier == "actor" ==> (exists j int :: { q.Actor[j] } 0 <= j && j < len(q.Actor) && tokens[k].value == q.Actor[j]))
+//@     invariant [participant-from-tokens] (forall j int :: { q.Participant[j] } 0 <= j && j < len(q.Participant) ==> (exists k int :: { tokens[k] } 0 <= k && k <= rangeindex && tokens[k].kind == tokenKindKV && tokens[k].qualifier == "participant" && tokens[k].value == q.Participant[j]))
+//@     invariant [tokens-in-participant]   (forall k int :: { tokens[k] } 0 <= k && k <= rangeindex && tokens[k].kind == tokenKindKV && tokens[k].qualifier == "participant" ==> (exists j int :: { q.Participant[j] } 0 <= j && j < len(q.Participant) && tokens[k].value == q.Participant[j]))
+//@     invariant [label-from-tokens] (forall j int :: { q.Label[j] } 0 <= j && j < len(q.Label) ==> (exists k int :: { tokens[k] } 0 <= k && k <= rangeindex && tokens[k].kind == tokenKindKV && tokens[k].qualifier == "label" && tokens[k].value == q.Label[j]))
+//@     invariant [tokens-in-label]   (forall k int :: { tokens[k] } 0 <= k && k <= rangeindex && tokens[k].kind == tokenKindKV && tokens[k].qualifier == "label" ==> (exists j int :: { q.Label[j] } 0 <= j && j < len(q.Label) && tokens[k].value == q.Label[j]))
+//@     invariant [title-from-tokens] (forall j int :: { q.Title[j] } 0 <= j && j < len(q.Title) ==> (exists k int :: { tokens[k] } 0 <= k && k <= rangeindex && tokens[k].kind == tokenKindKV && tokens[k].qualifier == "title" && tokens[k].value == q.Title[j]))
+//@     invariant [tokens-in-title]   (forall k int :: { tokens[k] } 0 <= k && k <= rangeindex && tokens[k].kind == tokenKindKV && tokens[k].qualifier == "title" ==> (exists j int :: { q.Title[j] } 0 <= j && j < len(q.Title) && tokens[k].value == q.Title[j]))
+//@     invariant [status-from-tokens] (forall j int :: { q.Status[j] } 0 <= j && j < len(q.Status) ==> (exists k int :: { tokens[k] } 0 <= k && k <= rangeindex && tokens[k].kind == tokenKindKV && (tokens[k].qualifier == "status" || tokens[k].qualifier == "state") && common.StatusFromString(tokens[k].value) == q.Status[j]))
+//@     invariant [tokens-in-status]   (forall k int :: { tokens[k] } 0 <= k && k <= rangeindex && tokens[k].kind == tokenKindKV && (tokens[k].qualifier == "status" || tokens[k].qualifier == "state") ==> (exists j int :: { q.Status[j] } 0 <= j && j < len(q.Status) && common.StatusFromString(tokens[k].value) == q.Status[j]))
+//@     invariant [metadata-from-tokens] (forall j int :: { q.Metadata[j] } 0 <= j && j < len(q.Metadata) ==> (exists k int :: { tokens[k] } 0 <= k && k <= rangeindex && tokens[k].kind == tokenKindKVV && tokens[k].qualifier == "metadata" && q.Metadata[j].Key == tokens[k].subQualifier && q.Metadata[j].Value == tokens[k].value))
+//@     invariant [tokens-in-metadata]   (forall k int :: { tokens[k] } 0 <= k && k <= rangeindex && tokens[k].kind == tokenKindKVV && tokens[k].qualifier == "metadata" ==> (exists j int :: { q.Metadata[j] } 0 <= j && j < len(q.Metadata) && q.Metadata[j].Key == tokens[k].subQualifier && q.Metadata[j].Value == tokens[k].value))
+//@     invariant [qualifiers-known] (forall k int :: { tokens[k] } 0 <= k && k <= rangeindex ==> (tokens[k].kind == tokenKindKV ==> (tokens[k].qualifier == "status" || tokens[k].qualifier == "state" || tokens[k].qualifier == "author" || tokens[k].qualifier == "actor" || tokens[k].qualifier == "participant" || tokens[k].qualifier == "label" || tokens[k].qualifier == "title" || tokens[k].qualifier == "no" || tokens[k].qualifier == "sort")) && (tokens[k].kind == tokenKindKVV ==> tokens[k].qualifier == "metadata") && (tokens[k].kind == tokenKindKV && tokens[k].qualifier == "no" ==> tokens[k].value == "label") && (tokens[k].kind == tokenKindKV && tokens[k].qualifier == "sort" ==> sortKnown(tokens[k].value)))
+//@     invariant [no-label] (q.NoLabel == (exists k int :: { tokens[k] } 0 <= k && k <= rangeindex && tokens[k].kind == tokenKindKV && tokens[k].qualifier == "no"))
+//@     invariant [sort-applied] (forall k int :: { tokens[k] } 0 <= k && k <= rangeindex && tokens[k].kind == tokenKindKV && tokens[k].qualifier == "sort" ==> int(q.OrderBy) == sortBy(tokens[k].value) && int(q.OrderDirection) == sortDir(tokens[k].value))
+//@     invariant [default-sort] ((forall k int :: { tokens[k] } 0 <= k && k <= rangeindex ==> !(tokens[k].kind == tokenKindKV && tokens[k].qualifier == "sort")) ==> q.OrderBy == OrderByCreation && q.OrderDirection == OrderDescending)
+//@     invariant [sorting-done] sortingDone == (exists k int :: { tokens[k] } 0 <= k && k <= rangeindex && tokens[k].kind == tokenKindKV && tokens[k].qualifier == "sort")
